@@ -211,6 +211,9 @@ func (c09) Run(t *testing.T, scenario any, job *Job, res *Result) {
 		return
 	}
 	if !sessionSucceeded(res, out.S, "") {
+		if res.Violation == nil {
+			return // inconclusive (harness trouble)
+		}
 		res.Violation.Signature += tag
 		setTape(&sc.Sync.Tr, out.S)
 		return
